@@ -278,7 +278,7 @@ def skelAnswer (h : Spec.Sklb.Header) (p : Enc) (f : TagFile) : Option String :=
   let bones ← bonesOf f
   let file := Spec.Sklb.encode h (encode p f)
   let tags := (if usesUnimplemented [] f then ["kf:havok-unimplemented-member-kind"] else []) ++
-    (if hasDatalessStructArray f then ["kf:havok-array-length-guard"] else []) ++
+    (if guardTrips p f then ["kf:havok-array-length-guard"] else []) ++
     (if usesWideInt f then ["kf:havok-int-beyond-i32"] else [])
   pure (answer ("skel " ++ Bytes.toHex file) ("some " ++ showSkelS bones) tags
     (some (showOutcome showSkelM (Sklb.fromExisting file))))
